@@ -23,6 +23,12 @@ def strip(p):
     return "/".join(seg for seg in p.split("/") if not re.fullmatch(r"[A-Za-z]+\.\d+|[A-Za-z]+::[A-Za-z]+\.\d+", seg))
 
 
+def _takes_log(fid):
+    """the function gets the diagnostics list (&mut Vec<A2lError>): it reports, it is not an accessor"""
+    cb = mir.prog().bodies.get(fid)
+    return cb is not None and any("A2lError" in l["ty"] and "Vec" in l["ty"] for l in cb.locals[1:1 + cb.argc])
+
+
 def log_effect(b, S, ev):
     if ev[1].endswith("Vec::push") and ev[7] and "A2lError" in ev[7][0]:
         return "log " + guards.error_variant(b, ev[6])
@@ -35,6 +41,10 @@ def log_effect(b, S, ev):
                 consts.append("#%d=%s" % (i, "|".join(cs)))
         if consts:
             return "call %s(%s)" % (ev[1].split("::")[-1], ", ".join(consts))
+    if ev[1].startswith("checker::") and "{closure" not in ev[1] and ev[1] in (sym.known_functions() or ()) and _takes_log(ev[1]):
+        # the call of a reviewed check function is itself a decision: its reaching condition says for which elements the
+        # diagnostics behind it are produced at all (seed C11s: both TRANSFORMER lists checked only when both are present)
+        return "call %s()" % ev[1].split("::")[-1]
     return None
 
 
